@@ -78,6 +78,13 @@ pub fn pre_lists(thorough: bool, seed: usize) -> Vec<(Vec<Vec<u8>>, Vec<u8>)> {
             v.push((vec![p, short.to_vec()], b"et a.x".to_vec()));
         }
     }
+    // a pattern whose first rare byte sits at offset 254..300 (offsets are stored in a u8)
+    for k in [254usize, 255, 256, 257, 300] {
+        let mut p = vec![b'a'; k];
+        p.push(b'Q');
+        v.push((vec![p.clone(), b"aQ".to_vec()], b"aQx".to_vec()));
+        v.push((vec![b"aQ".to_vec(), p], b"aQx".to_vec()));
+    }
     v
 }
 
